@@ -57,7 +57,7 @@ Record st := {
 }.
 
 Inductive errclass := MessageError | ConRetransmitsExceeded | NetworkError.
-Inductive exnclass := AssertionError | KeyError | TypeError.
+Inductive exnclass := AssertionError | KeyError.
 
 Inductive output :=
 | Tx (m : msg) (retr : bool)                (* message_interface.send(message); retr = from _retransmit *)
@@ -263,10 +263,9 @@ Definition tm_process_request (k r tok mt : Z) (s : st) : st * list output :=
 
 (* responder k puts response j into its pipe: Pipe.add_response -> _add_event -> on_event (tokenmanager.py:128-158) ->
    token_interface.send_message(m, stop).  [send] is send_message (of this file, or of Model/C14refuse.v).
-   pipe.py:184-199 _add_event: a last event ends the pipe afterwards (unless it ended inside the callback); after a
-   non-last event `self._any_interest()` is evaluated — if the pipe ended inside the callback (`stop` called
-   re-entrantly: the transport refused the datagram and dispatch_error ran the stoppers) `_event_callbacks` is False
-   and that raises TypeError. *)
+   pipe.py:184-202 _add_event: if the pipe ended inside the callback (`stop` called re-entrantly: the transport refused
+   the datagram and dispatch_error ran the stoppers) nothing more happens (fix 44c4a4c; before, a non-last event then
+   raised TypeError from `_any_interest()`); otherwise a last event ends the pipe now. *)
 Definition respond (send : sub -> Z -> Z -> Z -> Z -> Z -> st -> st * list output) (j k : Z) (last : bool) (maxre : Z) (s : st) : st * list output :=
   match find (fun v => v_k v =? k) (incoming_requests s) with
   | None => (s, [])                              (* pipe has ended: the event is discarded with a log line *)
@@ -274,8 +273,7 @@ Definition respond (send : sub -> Z -> Z -> Z -> Z -> Z -> st -> st * list outpu
       let '(s1, o1) := send (Resp j k) (v_remote v) (if v_mtype v =? 1 then 7 else 8) 69 (v_tok v) maxre s in
       if last then
         if alive k s1 then let '(s2, o2) := stop_responder k s1 in (s2, o1 ++ o2) else (s1, o1)
-      else
-        if alive k s1 then (s1, o1) else (s1, o1 ++ [Crash TypeError])
+      else (s1, o1)
   end.
 
 (* ---------------------------------------------------------------- MessageManager: incoming (messagemanager.py:97-155) *)
